@@ -139,6 +139,19 @@ pub fn check_archive(c: &mut Case, cfg: &Cfg, files: &[FileSpec], path: &std::pa
     let mask = ar.header().hash_table_size.max(1) - 1;
     let added: BTreeSet<String> = files.iter().map(|f| f.name.to_ascii_uppercase()).collect();
     let mut negs: Vec<(String, &str)> = vec![("never\\added.bin".into(), "plain"), ("".into(), "empty"), ("(user)".into(), "special-looking"), (format!("{}x", files[0].name), "suffix"), (files[1].name[..files[1].name.len() - 1].to_string(), "prefix")];
+    // names that differ from an added name only in the case of NON-ASCII letters (or by a Unicode case mapping that is not a
+    // per-byte ASCII fold: ß -> SS) are different names in the MPQ format (the hash folds ASCII only): never added
+    for f in files.iter() {
+        if !f.name.is_ascii() {
+            let up: String = f.name.chars().flat_map(|ch| if ch.is_ascii() { vec![ch] } else { ch.to_uppercase().collect::<Vec<_>>() }).collect();
+            let lo: String = f.name.chars().flat_map(|ch| if ch.is_ascii() { vec![ch] } else { ch.to_lowercase().collect::<Vec<_>>() }).collect();
+            for v in [up, lo, f.name.to_uppercase()] {
+                if v.to_ascii_uppercase() != f.name.to_ascii_uppercase() && negs.iter().filter(|(_, k)| *k == "non-ascii-case-variant").count() < 6 {
+                    negs.push((v, "non-ascii-case-variant"));
+                }
+            }
+        }
+    }
     let target = &files[rng.usize(files.len())].name;
     let th = hash_string(target, 0) & mask;
     let mut n = 0u32;
